@@ -11,6 +11,13 @@ RAC = {
     'pattern_contract': dict(crate=CORE, attach=S + 'linting/pattern_linter.rs', file='patterns.rs', test='rac_pattern_contract', function='Pattern::matches'),
     'merged_union': dict(crate=CORE, attach=S + 'spell/merged_dictionary.rs', file='merged_dictionary.rs', test='rac_merged_union', function='MergedDictionary'),
     'document_tiles': dict(crate=CORE, attach=S + 'document.rs', file='document.rs', test='rac_document_tiles', function='Document::parse (condensing passes)'),
+    'url_scanner': dict(crate=CORE, attach=S + 'lexing/mod.rs', file='lexing.rs', test='rac_url_scanner', function='lex_url'),
+    'markdown_tokens': dict(crate=CORE, attach=S + 'parsers/markdown.rs', file='markdown.rs', test='rac_markdown_tokens', function='Markdown::parse'),
+    'comment_frontends': dict(crate='harper-comments', attach='harper-comments/src/comment_parser.rs', file='comments.rs', test='rac_comment_frontends', function='CommentParser (tree-sitter mask + JSDoc/JavaDoc/Go/Unit comment parsers)'),
+    'number_suffix_rule': dict(crate=CORE, attach=S + 'linting/correct_number_suffix.rs', file='number_suffix.rs', test='rac_number_suffix_rule', function='CorrectNumberSuffix::lint + condense_number_suffixes + lex_number'),
+    'lint_group_cache': dict(crate=CORE, attach=S + 'linting/lint_group.rs', file='lint_group.rs', test='rac_lint_group_cache', function='LintGroup::lint (chunk cache rebase)'),
+    'lsp_glue': dict(crate='harper-ls', attach='harper-ls/src/document_state.rs', file='document_state.rs', test='rac_lsp_glue', target=['--bin', 'harper-ls'], function='DocumentState::generate_diagnostics / generate_code_actions / lint_to_code_actions'),
+    'fuzzy_backends': dict(crate=CORE, attach=S + 'spell/fst_dictionary.rs', file='fuzzy.rs', test='rac_fuzzy_backends', function='FstDictionary / MutableDictionary (exact queries, fuzzy_match)'),
 }
 # Verus piece name -> runtime contract checks that exercise the same clause on the real code
 RAC_FOR_FUNCTION = {
@@ -35,7 +42,11 @@ for _f in ('contains_word', 'contains_exact_word', 'get_correct_capitalization_o
 # unit -> runtime contract checks to fall back on when the unit cannot be decided by Verus at all
 # (extraction anchor lost, construct unsupported after a rewrite): a concrete failing input found on
 # the real code is still a violation; no hit leaves the run undecided (exit 2).
+for _f in ('lex_escaped', 'lex_uchar', 'lex_xchar', 'lex_xchar_string', 'is_xchar_string', 'is_uchar_plus_string', 'lex_login', 'lex_url', 'lex_hostname_token'):
+    RAC_FOR_FUNCTION[_f] = ['url_scanner', 'lexers']
+
 UNIT_RAC = {
+    'url': ['url_scanner', 'lexers'],
     'suggestion': ['suggestion_apply'],
     'overlaps': ['remove_overlaps', 'remove_indices'],
     'edit_distance': ['edit_distance'],
